@@ -30,7 +30,8 @@ def main():
         pats += sorted(glob.glob(os.path.join(ROOT, "harmless", "*", "patch.diff")))
     if which in ("seeded", "all"):
         pats += sorted(glob.glob(os.path.join(ROOT, "seeded", "*", "patch.diff")))
-    if os.path.isdir(which):
+    if which not in ("harmless", "seeded", "all") and os.path.isdir(which):
+        which = os.path.abspath(which)
         # a directory of deliveries: <dir>/*/out/*/patch.diff or <dir>/*/patch.diff
         pats = sorted(glob.glob(os.path.join(which, "*", "out", "*", "patch.diff")) + glob.glob(os.path.join(which, "*", "patch.diff")))
     only = sys.argv[2].split(",") if len(sys.argv) > 2 else None
@@ -46,7 +47,7 @@ def main():
         if not any(f in ("src/chunk.rs", "src/body.rs", "src/util.rs", "src/client/flow.rs", "src/client/amended.rs", "src/client/call.rs", "src/ext.rs") for f in files):
             continue
         name = os.path.basename(os.path.dirname(p))
-        if os.path.isdir(which):
+        if which not in ("harmless", "seeded", "all") and os.path.isdir(which):
             name = os.path.relpath(os.path.dirname(p), which).replace("/out/", "-").replace("/", "-")
         repo = SCR + "/repo"
         shutil.rmtree(repo, ignore_errors=True)
